@@ -77,7 +77,7 @@ fn k_terrain_file_write() {
     kani::cover!(true, "reachable");
 }
 
-//@unit props=C16 label=B tier=quick native=1 fn=tera::Terrain::{from_existing,write_to_buffer} bound="exhaustive by execution: every i16 x with y = -x-1 and y = x rotated by 7 bits, one- and three-plate files"
+//@unit props=C16 label=B tier=quick native=1 fn=tera::Terrain::{from_existing,write_to_buffer} bound="exhaustive by execution: every i16 x with y = -x-1 and y = x rotated by 7 bits, one- and three-plate files; reader only: 10 plate sizes (1..65535, odd and even) x 5 grid positions in hand-packed files"
 //@desc same contract as k_terrain_file_roundtrip, by execution of the real reader and writer
 #[test]
 fn native_terrain_roundtrip() {
@@ -90,6 +90,15 @@ fn native_terrain_roundtrip() {
             assert_eq!(t.plates[0].filename, "0000.mdl");
             let o = t.write_to_buffer().expect("writes");
             assert_eq!(&o[..], &b[..], "terrain with plate ({xi},{y}) written back byte for byte");
+            cases += 1;
+        }
+    }
+    // plate sizes other than the writer's 128 (hand-packed files): the plate centre is plate_size * (index + 0.5) - half a plate is a fraction for odd sizes
+    for size in [1u32, 2, 25, 127, 128, 129, 255, 256, 1000, 65535] {
+        for (x, y) in [(0i16, 0i16), (1, -1), (-3, 7), (100, -100), (i16::MAX, i16::MIN)] {
+            let mut b = tera_file(x, y); b[8..12].copy_from_slice(&size.to_le_bytes());
+            let t = Terrain::from_existing(&b).expect("parses");
+            assert_eq!(t.plates[0].position, (size as f32 * (x as f32 + 0.5), size as f32 * (y as f32 + 0.5)), "plate centre of ({x},{y}) for plate size {size}");
             cases += 1;
         }
     }
